@@ -70,7 +70,7 @@ async fn interpret(mut req: Request<'_, Reader, Writer>, ops: Vec<Op>, role: u16
             }
             if w && !writeable_seen {
                 writeable_seen = true;
-                let rt = pipe.lock().unwrap().read_total;
+                let rt = pipe.lock().unwrap_or_else(std::sync::PoisonError::into_inner).read_total;
                 if std::env::var("C09_DEBUG").is_ok() {
                     eprintln!("writeable flipped at read_total={rt} active={:?}", req.active_stream());
                 }
@@ -82,7 +82,7 @@ async fn interpret(mut req: Request<'_, Reader, Writer>, ops: Vec<Op>, role: u16
     for op in ops {
         let active = req.active_stream().map_or(0, u8::from);
         if std::env::var("C09_DEBUG").is_ok() {
-            eprintln!("op {op:?} active={active} read_total={}", pipe.lock().unwrap().read_total);
+            eprintln!("op {op:?} active={active} read_total={}", pipe.lock().unwrap_or_else(std::sync::PoisonError::into_inner).read_total);
         }
         match op {
             Op::Read(n) => {
@@ -198,7 +198,7 @@ async fn interpret(mut req: Request<'_, Reader, Writer>, ops: Vec<Op>, role: u16
             Op::Writeable => {
                 let r = req.writeable().await;
                 if std::env::var("C09_DEBUG").is_ok() {
-                    let p = pipe.lock().unwrap();
+                    let p = pipe.lock().unwrap_or_else(std::sync::PoisonError::into_inner);
                     eprintln!("writeable() returned {r:?} read_total={} sent_total={} inbox={} is_writeable={}", p.read_total, p.sent_total, p.inbox.len(), req.is_writeable());
                 }
                 match r {
@@ -338,7 +338,7 @@ fn run_one(c: &mut Case) {
         }
         let mut acts: Vec<u8> = exec.runnable().into_iter().map(|t| t as u8).collect();
         let (rg, wg) = {
-            let p = pipe.lock().unwrap();
+            let p = pipe.lock().unwrap_or_else(std::sync::PoisonError::into_inner);
             (p.read_gated, p.write_gated)
         };
         if sent < wire_bytes.len() {
@@ -360,14 +360,14 @@ fn run_one(c: &mut Case) {
         match a {
             10 => {
                 let n = piece.min(wire_bytes.len() - sent);
-                pipe.lock().unwrap().peer_send(&wire_bytes[sent..sent + n]);
+                pipe.lock().unwrap_or_else(std::sync::PoisonError::into_inner).peer_send(&wire_bytes[sent..sent + n]);
                 sent += n;
             }
-            11 => pipe.lock().unwrap().reader_ready(),
-            12 => pipe.lock().unwrap().writer_ready(),
+            11 => pipe.lock().unwrap_or_else(std::sync::PoisonError::into_inner).reader_ready(),
+            12 => pipe.lock().unwrap_or_else(std::sync::PoisonError::into_inner).writer_ready(),
             13 => {
                 closed = true;
-                pipe.lock().unwrap().peer_close();
+                pipe.lock().unwrap_or_else(std::sync::PoisonError::into_inner).peer_close();
             }
             t => {
                 exec.poll(t as usize);
@@ -377,7 +377,7 @@ fn run_one(c: &mut Case) {
     c.l.add("executor_steps", steps);
     c.l.state(hist);
     let l = log.lock().unwrap();
-    let out = pipe.lock().unwrap().outbox.clone();
+    let out = pipe.lock().unwrap_or_else(std::sync::PoisonError::into_inner).outbox.clone();
     let fail = |c: &mut Case, sig: &str, msg: String| {
         c.violation(
             sig,
